@@ -21,6 +21,10 @@ LIB_CUE = """// container comment
 Container: {
 	item: Item
 	name: string
+	opts: {
+		flag: bool
+	}
+	either: string | bool
 }
 Item: {
 	value: string
